@@ -14,6 +14,7 @@ from vf import ref_sgml
 from vf import ref_types as R
 from vf import universe as U
 from vf.checks.c01 import FORMS, client, empty_aggregates
+from vf.core import disturb_process
 from vf.core import vacuous, HarnessError, Tally
 
 LEVEL = "exploration"
@@ -85,6 +86,7 @@ def prime():
     if _primed:
         return
     _primed.append(True)
+    disturb_process()
     for tok in FOREIGN_TOKENS:
         for cls in S.all_classes():
             c = next((c for c in S.children(cls) if c.kind == "elem" and c.typ == "OneOf" and tok in [str(x) for x in c.params]), None)
